@@ -120,7 +120,7 @@ func gen(t *rapid.T) Case {
 	var c Case
 	c.Ego = rapid.IntRange(0, 3).Draw(t, "egoflavoured") == 0
 	if c.Ego {
-		c.Program = proggen.EgoProgram(t, "p_")
+		c.Program = proggen.EgoProgramNoTry(t, "p_")
 	} else {
 		c.Program = proggen.GoProgram(t, "p_")
 	}
